@@ -148,7 +148,7 @@ func TestGvcReplay(t *testing.T) {
 }
 
 func init() {
-	boundedChecks = append(boundedChecks, boundedCheck{prop: "C06", name: "bounded:hash.Hash/fields", fn: "github.com/go-task/task/v3/internal/hash.Hash",
+	boundedChecks = append(boundedChecks, boundedCheck{prop: "C06", props: []string{"C01"}, name: "bounded:hash.Hash/fields", fn: "github.com/go-task/task/v3/internal/hash.Hash",
 		why:    "the when_changed key is computed by hashstructure through reflection; which fields (and which parts of the ordered variable maps) reach the hash cannot be stated as an obligation over go/ssa",
 		bound:  "one pair of compiled tasks per exported field of ast.Task (enumerated by reflection, so new fields are covered), differing in that field only - for *Vars fields in the VALUE of one variable, for nested structs in every settable field down to depth 3; the two keys must differ",
 		pkgRel: "internal/hash",
@@ -262,7 +262,7 @@ func TestGvcReplay(t *testing.T) {
 	fmt.Printf("GVC-BOUNDED-CASES %d\n", n)
 }
 `})
-	boundedChecks = append(boundedChecks, boundedCheck{prop: "C08", props: []string{"C09", "C11", "C18", "C16"}, name: "bounded:deepcopy.generic-helpers", fn: "github.com/go-task/task/v3/internal/deepcopy.{Slice,Map,OrderedMap}",
+	boundedChecks = append(boundedChecks, boundedCheck{prop: "C08", props: []string{"C09", "C10", "C11", "C18", "C16"}, name: "bounded:deepcopy.generic-helpers", fn: "github.com/go-task/task/v3/internal/deepcopy.{Slice,Map,OrderedMap}",
 		why:    "the generic copy helpers test every element for the Copier interface at run time (a dynamic type test on a type parameter); their contracts (fresh result, same length, element-wise copies) are assumed by every DeepCopy proof",
 		bound:  "nil, empty and two-element inputs, with plain and with Copier elements, for each of the three helpers: the result must be a different object (also for EMPTY inputs), have the same length and equal contents, and writing to it must not change the original",
 		pkgRel: "internal/deepcopy",
@@ -312,6 +312,10 @@ func TestGvcReplay(t *testing.T) {
 		c := OrderedMap(orig)
 		if c == orig {
 			bad("OrderedMap returns its argument (size %d): the copy shares the original", size)
+			continue
+		}
+		if c == nil {
+			bad("OrderedMap returns a MISSING map for a map of size %d: Vars.Merge and the other wrappers return silently when their map is missing, so vars merged into the copy later (the vars of an outer include statement) are lost", size)
 			continue
 		}
 		if c.Len() != orig.Len() {
